@@ -119,6 +119,9 @@ class IOWorker (object):
         # SSL library does this sometimes
         log.error("Socket %s: ENOENT", str(self))
         return
+      if e.errno == errno.EAGAIN:
+        # Nothing to read after all
+        return
       log.error("Socket %s error %i during recv: %s", str(self),
           e.errno, e.strerror)
       self.close()
